@@ -253,7 +253,7 @@ func (fr *Frame) makeSlice(st *State, ln, cp T, elem types.Type, zero bool) *Sli
 	st.setGlob("$alloc", arr)
 	if zero {
 		et := types.Unalias(elem)
-		if s, ok := leafSort(et); ok && structOf(et) == nil {
+		if s, ok := leafSort(et); ok && structOf(et) == nil && (s == SInt || s == SBool) {
 			key := elemKey(et)
 			a := vc.getGlob(st, key, arrOf(arrOf(s)))
 			vc.eng.noteGlobSort(key, arrOf(arrOf(s)))
